@@ -348,7 +348,7 @@ func TestValueLengths(t *testing.T) {
 		for L := 0; L <= 1100; L++ {
 			lengths = append(lengths, L)
 		}
-		for _, c := range []int{1536, 2048, 4096, 8192, 65536} {
+		for _, c := range []int{1536, 2048, 4096, 8192, 16384, 32768, 65536, 131072} {
 			for d := -70; d <= 2; d++ {
 				lengths = append(lengths, c+d)
 			}
@@ -374,6 +374,27 @@ func TestValueLengths(t *testing.T) {
 						}
 					}
 					ev.Case(fmt.Sprintf("len/%s/%d/%d", kind, L, ki), (L+len(key))%512 < 4 || L%512 < 2, "value-length-sweep")
+				}
+				if L > 1100 {
+					// around the powers of two the trie is also restructured under these values: the middle key (a prefix of
+					// the long one) goes and comes back, the others must still read the same through a cold trie
+					if _, err := mpt.Delete(util.Path(keys[1])); err != nil {
+						t.Fatalf("%s store, values of %d bytes: removal of the middle key: %v", kind, L, err)
+					}
+					cold := mptkit.NewTrie(st.DB, int64(seed%4), mpt.GetRoot())
+					for ki, key := range keys {
+						got, err := cold.GetNodeValueRaw(util.Path(key))
+						if ki == 1 {
+							if err == nil {
+								t.Fatalf("%s store, values of %d bytes: the removed middle key is still found", kind, L)
+							}
+							continue
+						}
+						want := bytes.Repeat([]byte{byte(L), byte(seed), 0x3a, byte(ki)}, L/4+1)[:L]
+						if err != nil || !bytes.Equal(got, want) {
+							t.Fatalf("%s store: %d-byte value under %q after the middle key was removed: a cold lookup returns %d bytes (%v)", kind, L, key, len(got), err)
+						}
+					}
 				}
 			}
 			st.Close()
@@ -435,5 +456,69 @@ func TestSizeLimitWithSizeEstimates(t *testing.T) {
 		if !bytes.Equal(before, mpt.GetRoot()) {
 			t.Fatalf("a refused over-size value changed the root")
 		}
+	})
+}
+
+// Very long paths and very deep tries: 66..75 keys that are prefixes of one another, the longest of 132..150 hex
+// characters (more than 128 node levels on one path), plus side keys that leave the long path at drawn places. Inserts,
+// lookups (present and absent), full iteration and removals against the map model, on a memory and a persistent store.
+func TestVeryLongAndDeep(t *testing.T) {
+	ev.Rapid(t, 6, 60)
+	rapid.Check(t, func(rt *rapid.T) {
+		kind := gen.Pick(rt, []string{"memory", "pndb", "level-pndb"}, "store")
+		st := mptkit.NewStore(kind)
+		defer st.Close()
+		mpt := mptkit.NewTrie(st.DB, int64(gen.Uniform(rt, 0, 2, "version")), nil)
+		unit := gen.Pick(rt, []string{"5e", "00", "a1", "ff"}, "unit")
+		n := gen.Uniform(rt, 66, 75, "nested")
+		model := map[string][]byte{}
+		var order []string
+		for i := 1; i <= n; i++ {
+			order = append(order, strings.Repeat(unit, i))
+		}
+		for i := gen.Uniform(rt, 0, 6, "nside"); i > 0; i-- {
+			order = append(order, strings.Repeat(unit, gen.Uniform(rt, 1, n, "sideat"))+gen.Pick(rt, []string{"0b", "b0", "77"}, "sidetail"))
+		}
+		if gen.Chance(rt, 50, "longestfirst") {
+			for i, j := 0, len(order)-1; i < j; i, j = i+1, j-1 {
+				order[i], order[j] = order[j], order[i]
+			}
+		}
+		check := func(when string) {
+			for _, tr := range []*util.MerklePatriciaTrie{mpt, util.CloneMPT(mpt)} {
+				for _, p := range order {
+					got, err := tr.GetNodeValueRaw(util.Path(p))
+					want, live := model[p]
+					if live && (err != nil || !bytes.Equal(got, want)) {
+						rt.Fatalf("%s (%s store): lookup of the %d-character path %q.. = %x, %v; want %x", when, kind, len(p), p[:4], got, err, want)
+					}
+					if !live && err == nil {
+						rt.Fatalf("%s (%s store): lookup of the absent %d-character path returns %x", when, kind, len(p), got)
+					}
+				}
+				content, err := mptkit.Content(tr)
+				if err != nil || !mptkit.EqualContent(content, model) {
+					rt.Fatalf("%s (%s store): a full iteration yields %d pairs (%v), %d are stored", when, kind, len(content), err, len(model))
+				}
+			}
+		}
+		for i, p := range order {
+			v := []byte{byte(i), byte(len(p)), 0x3a}
+			if _, err := mptkit.InsertReused(mpt, p, v); err != nil {
+				rt.Fatalf("insert of a %d-character path: %v", len(p), err)
+			}
+			model[p] = v
+		}
+		check("after the inserts")
+		for i := gen.Uniform(rt, 1, 12, "ndel"); i > 0; i-- {
+			p := gen.Pick(rt, order, "del")
+			_, err := mpt.Delete(util.Path(p))
+			if _, live := model[p]; live && err != nil {
+				rt.Fatalf("removal of a stored %d-character path: %v", len(p), err)
+			}
+			delete(model, p)
+		}
+		check("after some removals")
+		ev.Case(fmt.Sprintf("deep/%s/%s/%d/%d", kind, unit, n, len(model)), true, "more-than-128-node-levels")
 	})
 }
